@@ -120,7 +120,7 @@ Proof.
   intros vals min max H1 H2 H Hex Hne. unfold draw_int. rewrite range_of_exact by assumption.
   destruct (max - min =? GMAX); [destruct vals; congruence|].
   assert (R : reject_loop vals (limit_of (max - min + 1)) <> None).
-  { clear Hne. induction Hex as [v vals Hv|v vals Hex IH]; cbn.
+  { clear Hne. induction Hex as [v vals Hv|v vals Hex IH]; cbn [reject_loop].
     - apply Z.leb_gt in Hv. rewrite Hv. discriminate.
     - destruct (limit_of (max - min + 1) <=? v); [exact IH|discriminate]. }
   destruct (reject_loop vals (limit_of (max - min + 1))) as [[v rest]|]; congruence.
@@ -129,10 +129,10 @@ Qed.
 (** * uniform_real *)
 Lemma numerator_range : forall vals n rest, Forall raw vals -> draw_numerator vals = Some (n, rest) -> 0 <= n < GMAX.
 Proof.
-  induction vals as [|v vals IH]; cbn; intros n rest F H; [discriminate|]. inv F.
-  destruct (v =? GMAX) eqn:E.
-  - eapply IH; eauto.
-  - inv H. apply Z.eqb_neq in E. unf. lia.
+  induction vals as [|v vals IH]; cbn; intros n rest F H; [discriminate|].
+  match type of H with (if ?b then _ else _) = _ => destruct b eqn:E end.
+  - inv F. eapply IH; eauto.
+  - injection H as <- <-. apply Z.eqb_neq in E. inv F. unf. lia.
 Qed.
 
 (* min + (max - min) * numerator / divisor, exact *)
@@ -144,5 +144,10 @@ Proof.
   intros mn mx n Hle Hn. unfold real_q. set (t := (n # 4294967295)%Q).
   assert (T0 : (0 <= t)%Q) by (unfold t, Qle; cbn; lia).
   assert (T1 : (t < 1)%Q) by (unfold t, Qlt, GMAX in *; cbn; lia).
-  clearbody t. repeat split; try intro; nra.
+  clearbody t.
+  assert (P0 : (0 <= (mx - mn) * t)%Q) by (apply Qmult_le_0_compat; lra).
+  assert (P1 : (0 <= (mx - mn) * (1 - t))%Q) by (apply Qmult_le_0_compat; lra).
+  split; [lra|]. split; [lra|]. intro Hlt.
+  assert (P2 : (0 < (mx - mn) * (1 - t))%Q) by (apply Qmult_lt_0_compat; lra).
+  lra.
 Qed.
